@@ -136,6 +136,18 @@ CHECKS = {
         "enumerated). Known finding C11-u (io_uring ROUTER ignores the peer's socket type).",
    technique="TLA+ spec (Router.tla) + TLC exhaustive history export replayed on the real RouterMap; recorded socket histories checked against the property",
    design_ref="DESIGN.md 4.6, 5 (C11)"),
+ "C02": dict(
+   text="TLC checks Ingress.tla (whole messages from several connections read frame by frame or whole, in any mix, while "
+        "connections detach; the cache of a half-read message): Whole, InOrderOnce; simulated histories are replayed on the real "
+        "AnonymousIngressEngine (the served connection is the real queue's choice, everything else compared; the frames handed out "
+        "must always form whole messages). Real sockets: payload shapes (1..250 frames, empty frames anywhere, sizes across "
+        "255/256, frames without MORE flags) x recv / recv_multipart / mixed x PUSH-PULL, DEALER<->ROUTER, PUB-SUB, concurrent "
+        "peers, a peer detaching mid-read, 251+/256 frames refused at the sender; the receiver's frame stream is regrouped by MORE "
+        "flags and compared with what was sent.",
+   note="Engine-side assembly of MORE frames and the frame cap are checked in C07 (Script.tla MoreRuns). All-empty messages are "
+        "checked by sizes only; for PUB only wholeness is demanded (drops allowed).",
+   technique="TLA+ spec (Ingress.tla, Engine.tla) + TLC; histories replayed on the real ingress engine; recorded socket frame streams checked against the property",
+   design_ref="DESIGN.md 5 (C02)"),
 }
 
 NA_DEFAULT = "check not built yet (construction in progress; see DESIGN.md section 10)"
